@@ -2101,8 +2101,20 @@ class CreateEntryAtSlot(MapKernel):
         self.view.m_pointer = lambda I_, a, n: Ptr(Obj("node", "node_pointer"))
         self.out_null = z3.Bool("output_mutation_null")
         om = Obj("TSDDataMutationView", "output_mutation")
-        om.m_erase = lambda I_, a, n: I_.ctx.fresh("erased", "bool")
-        om.op = lambda I_, op, rest, n, a0: Wild(name="output_element")
+        ctx.store[(g.oid, "out_created_key")] = z3.IntVal(-9)
+        ctx.store[(g.oid, "out_erased_key")] = z3.IntVal(-9)
+
+        def om_erase(I_, a, n):
+            kv = I_.ctx.rv(a[0])
+            I_.ctx.write(Loc((g.oid, "out_erased_key")), getattr(kv, "slot", z3.IntVal(-3)))
+            return I_.ctx.fresh("erased", "bool")
+
+        def om_index(I_, op, rest, n, a0):
+            kv = I_.ctx.rv(rest[0])
+            I_.ctx.write(Loc((g.oid, "out_created_key")), getattr(kv, "slot", z3.IntVal(-3)))
+            return Wild(name="output_element")
+        om.m_erase = om_erase
+        om.op = om_index
         return None, {"view": self.view, "context": cx, "storage": self.st, "output_mutation": Ptr(om, self.out_null),
                       "keys_set": KeysSet(self), "slot": self.slot, "evaluation_time": self.T}
 
@@ -2164,6 +2176,9 @@ class CreateEntryAtSlot(MapKernel):
                            z3.BoolVal(isinstance(sc, SchedCtxVal)), (sc.storage_ok if isinstance(sc, SchedCtxVal) else z3.BoolVal(False)),
                            (sc.slot if isinstance(sc, SchedCtxVal) else z3.IntVal(-9)) == s, self.gg(ctx, "observer_on_this_entry"))),
                    kind="post-normal")
+        ctx.oblige("ensures.a-map-with-an-output-instantiates-the-output-element-of-exactly-this-key[C10 the output key set follows the "
+                   "key set]", z3.Implies(z3.And(z3.Not(already), z3.Not(self.out_null)), self.gg(ctx, "out_created_key") == s),
+                   kind="post-normal")
         ctx.oblige("ensures.a-new-entry-is-keyed-by-the-key-in-that-slot;other-slots-untouched[C10 isolation]", z3.And(
             z3.Implies(self.enull0[s], self.gg(ctx, "constructed_key") == s),
             z3.ForAll([qs], z3.Implies(qs != s, z3.And(started[qs] == self.started0[qs], enull[qs] == self.enull0[qs],
@@ -2179,3 +2194,68 @@ class CreateEntryAtSlot(MapKernel):
 
 
 KERNELS.append(CreateEntryAtSlot)
+
+
+
+class RemoveEntryAtSlot(MapKernel):
+    name = "map_node.cpp:remove_entry_at_slot"
+    fn_name = "remove_entry_at_slot"
+    filter = "remove_entry_at_slot"
+    property_ids = ("C10",)
+    title = "remove_entry_at_slot: the removed key's child is stopped, its pulled deadline forgotten, its output and error elements erased"
+
+    def setup(self, I):
+        ctx = I.ctx
+        self.base(I)
+        g = self.g
+        self.slot = z3.Int("slot")
+        ctx.assume(self.slot >= 0)
+        self.out_null, self.err_null, self.err_has = z3.Bool("output_mutation_null"), z3.Bool("error_mutation_null"), z3.Bool("error_dict_has_key")
+        for nm in ("out_erased_key", "err_erased_key", "cleared_binding"):
+            ctx.store[(g.oid, nm)] = z3.IntVal(-9)
+        ctx.store[(g.oid, "pulled_when")] = z3.Array("pulled_when0", I_, I_)
+        ents = Obj("InPlaceGraphSlotStore", "entries")
+        k = self
+        ents.m_entry_at = lambda I_, a, n: k.entry_ptr(I_.ctx.rv(a[0]))
+        ctx.store[(self.st.oid, "entries")] = ents
+
+        def mut(nm, has):
+            o = Obj("TSDDataMutationView", nm)
+
+            def erase(I_, a, n):
+                kv = I_.ctx.rv(a[0])
+                I_.ctx.write(Loc((g.oid, nm + "_erased_key")), getattr(kv, "slot", z3.IntVal(-3)))
+                return I_.ctx.fresh("erased", "bool")
+            o.m_erase = erase
+            o.m_contains = lambda I_, a, n: has
+            return o
+        cx = Obj("MapNodeContext", "context")
+        return None, {"view": self.view, "context": cx, "storage": self.st, "output_mutation": Ptr(mut("out", z3.BoolVal(True)), self.out_null),
+                      "error_mutation": Ptr(mut("err", self.err_has), self.err_null), "slot": self.slot, "evaluation_time": self.T}
+
+    def f_clear_entry_output_binding(self, I, a, n):
+        e = I.ctx.rv(a[2])
+        I.ctx.write(Loc((self.g.oid, "cleared_binding")), getattr(e, "slot", z3.IntVal(-3)))
+        return VOID
+
+    def post(self, I, ret):
+        ctx = I.ctx
+        s = self.slot
+        live = z3.Not(self.entry_null[s])
+        started, stops = self.gg(ctx, "started"), self.gg(ctx, "stops")
+        ctx.oblige("ensures.the-key's-child-is-stopped-once-if-it-ran,its-pulled-deadline-forgotten[C10 a removed key's child stops]",
+                   z3.Implies(live, z3.And(z3.Not(started[s]), stops[s] == z3.If(self.started0[s], 1, 0),
+                                           self.gg(ctx, "pulled_when")[s] == MAX_DT)), kind="post-normal")
+        ctx.oblige("ensures.the-key's-output-element-is-erased(or-its-binding-cleared),and-its-error-element-if-present[C10 the output "
+                   "key set follows the key set]", z3.Implies(live, z3.And(
+                       z3.If(self.out_null, self.gg(ctx, "cleared_binding") == s, self.gg(ctx, "out_erased_key") == s),
+                       z3.Implies(z3.And(z3.Not(self.err_null), self.err_has), self.gg(ctx, "err_erased_key") == s))), kind="post-normal")
+        ctx.oblige("ensures.no-entry=>nothing-happens;other-children-untouched[C10 isolation]", z3.And(
+            z3.Implies(z3.Not(live), z3.And(self.gg(ctx, "out_erased_key") == -9, stops == z3.K(I_, z3.IntVal(0)))),
+            z3.ForAll([qs], z3.Implies(qs != s, z3.And(started[qs] == self.started0[qs], stops[qs] == 0)))), kind="post-normal")
+
+    def post_exc(self, I, exc):
+        I.ctx.oblige("raises.only-a-child-stop-failure", z3.BoolVal(exc.origin == "child.stop"), kind="post-exceptional")
+
+
+KERNELS.append(RemoveEntryAtSlot)
